@@ -321,13 +321,18 @@ def main():
               coverage=dict(states=tot(lambda r: r["tlc"]["distinct"]), transitions=tot(lambda r: r["tlc"]["states_generated"]),
                             traces_validated_against_impl=tot(lambda r: r["replay"]["behaviours"]),
                             samples=samples[:3],
-                            exhaustive=True,
+                            exhaustive=all(plan.SUITES[r["suite"]].get("exhaustive", True) and r["replay"].get("complete", True) for r in results),
                             suites=[dict(suite=r["suite"], cases=r["cases"], tlc=r["tlc"], behaviours=r["behaviours"],
                                          replay=r["replay"], model_flagged=r["model_bad"],
                                          judged_on_observed_trace=len(r["judged"]), cached=r["cached"], wall_s=r["wall_s"])
                                     for r in results],
-                            rule="TLC enumerates every stimulus sequence of each case's alphabet up to its length bound (all paths); "
-                                 "every maximal behaviour is replayed on the real crate in both forms and compared step by step",
+                            rule="sequential / timed suites (MC_Seq): TLC enumerates every stimulus sequence of each case's alphabet up to its "
+                                 "length bound (all paths); every maximal behaviour is replayed on the real crate in both forms and compared step by "
+                                 "step. thread suite (MC_Conc): TLC enumerates every schedule of the threads' scripts at lock-acquisition granularity up "
+                                 "to the preemption bound; rxthreads enumerates the schedules of the real threads the same way (capped per case, see "
+                                 "'complete') and every real outcome is compared with the model's outcome set and judged by TraceConc. suite 'fuzz' is "
+                                 "a seeded random sample of deeper pipelines and longer scripts, not exhaustive.",
+                            computed_wall_s=round(sum(r["wall_s"] for r in results), 1),
                             drift=drift, known_findings=list(known.keys())),
               assumptions=plan.ASSUMPTIONS.get(pid, plan.ASSUMPTIONS["*"]),
               wall_s=round(time.time() - t0, 1), violations=len(violations), harness_build_s=round(bw, 1))
